@@ -66,6 +66,9 @@ SOLVERS = {
     "cvc5-int": ["cvc5", "--lang", "smt2", "--incremental", "--solve-bv-as-int=sum"],
     "cvc5-bv": ["cvc5", "--lang", "smt2", "--incremental", "--tlimit-per=1500"],
     "z3": ["/usr/bin/z3", "-smt2", "-t:1000"],
+    # array-heavy scripts (symbolic tables): bit-vector + array back ends with a longer per-query limit
+    "z3-20s": ["/usr/bin/z3", "-smt2", "-t:20000"],
+    "cvc5-bv-20s": ["cvc5", "--lang", "smt2", "--incremental", "--tlimit-per=20000"],
 }
 
 
